@@ -381,7 +381,7 @@ func c13Keys(seed, n int) []any {
 			keys[i] = c13Tagged{Addr: "k", ID: seed + i, Tags: []string{strconv.Itoa(i)}}
 		case 10:
 			mags := []any{uint64(1<<63 + uint64(i)), int64(math.MinInt64 + int64(i)), int64(1<<53 + int64(i)), uint32(1<<32 - 1 - uint32(i%7)), int16(-1<<15 + int16(i%5)), uint8(255 - i%3), true,
-				float32(seed%1000) + float32(i%8)/8, int8(-128 + i%7), int32(math.MinInt32 + i), uint(1<<63 + uint(i)), uint16(65535 - i%9)}
+				float32(seed%1000) + float32(i%8)/8, int8(-128 + i%7), int32(math.MinInt32 + i), uint(math.MaxUint/2+1) + uint(i), uint16(65535 - i%9)}
 			keys[i] = mags[(seed+i)%len(mags)]
 		case 11:
 			specials := []string{"", "%s%d%!v", "k\x00" + strconv.Itoa(i), "\xff\xfe" + strconv.Itoa(seed), "键-" + strconv.Itoa(i), " lead " + strconv.Itoa(i) + " ", "*?[a-z]{1,2}$(x)`y`"}
@@ -815,7 +815,7 @@ func c13Setting(o c13Op, effR int) (positive, unknown bool, lo, hi int) {
 		if o.W == 0 {
 			return false, false, 0, 0
 		}
-		if o.W < 0 || o.W > math.MaxInt64/effR {
+		if o.W < 0 || o.W > math.MaxInt/effR { // (int is the platform's: 32 bits on a GOARCH=386 build)
 			return false, true, 0, effR
 		}
 		x := effR * o.W
@@ -1488,6 +1488,19 @@ func c13DrawKind(rt *rapid.T) int {
 
 // c13GenOp: present tracks which nodes the generator believes to be added, so
 // that most removals hit a present node (removing an absent node stays possible).
+// c13Ints: those of the listed values that an int of this build holds. int is the platform's:
+// on a 64-bit build this is the whole list (math.MaxInt == math.MaxInt64, math.MaxInt/2+1 == 1<<62),
+// on a GOARCH=386 build 1<<31, 1<<32 ... drop out and math.MaxInt is 1<<31 - 1.
+func c13Ints(vs ...int64) []int {
+	out := make([]int, 0, len(vs))
+	for _, v := range vs {
+		if int64(int(v)) == v {
+			out = append(out, int(v))
+		}
+	}
+	return out
+}
+
 func c13GenOp(rt *rapid.T, nn, effR int, present []bool) c13Op {
 	o := c13Op{
 		K: rapid.SampledFrom([]string{"add", "add", "add", "addw", "addw", "addw", "addw", "addr", "addr", "addr", "rm", "rm", "rm"}).Draw(rt, "k"),
@@ -1510,12 +1523,12 @@ func c13GenOp(rt *rapid.T, nn, effR int, present []bool) c13Op {
 	case "addw":
 		switch {
 		case sel == 0: // zero, or (one in two) negative: the node's own share is then not determined
-			o.W = rapid.SampledFrom([]int{0, 0, 0, 0, -1, -1, -50, -100, -101, math.MinInt64}).Draw(rt, "w0")
+			o.W = rapid.SampledFrom([]int{0, 0, 0, 0, -1, -1, -50, -100, -101, math.MinInt}).Draw(rt, "w0")
 			o.U = o.W < 0
 		case sel == 1: // above 100 %: capped; the last four overflow when multiplied with the replicas (not determined)
 			if rapid.Bool().Draw(rt, "wbig") {
-				o.W = rapid.SampledFrom([]int{127, 128, 129, 255, 256, 257, 32767, 32768, 65535, 65536, 65537, 1<<31 - 1, 1 << 31, 1 << 32, 1000000007, math.MaxInt64/300 - 1, math.MaxInt64/100 + 1, 1 << 62, 1<<62 + 12345, math.MaxInt64}).Draw(rt, "w")
-				o.U = o.W > math.MaxInt64/effR
+				o.W = rapid.SampledFrom(c13Ints(127, 128, 129, 255, 256, 257, 32767, 32768, 65535, 65536, 65537, 1<<31-1, 1<<31, 1<<32, 1000000007, math.MaxInt/300-1, math.MaxInt/100+1, math.MaxInt/2+1, math.MaxInt/2+1+12345, math.MaxInt)).Draw(rt, "w")
+				o.U = o.W > math.MaxInt/effR
 			} else {
 				o.W = rapid.IntRange(101, 130).Draw(rt, "w")
 			}
@@ -1527,11 +1540,11 @@ func c13GenOp(rt *rapid.T, nn, effR int, present []bool) c13Op {
 	case "addr":
 		switch {
 		case sel == 0:
-			o.W = rapid.SampledFrom([]int{0, 0, 0, 0, -1, -1, -2, -100, math.MinInt32, math.MinInt64}).Draw(rt, "w0")
+			o.W = rapid.SampledFrom([]int{0, 0, 0, 0, -1, -1, -2, -100, math.MinInt32, math.MinInt}).Draw(rt, "w0")
 			o.U = o.W < 0
 		case sel <= 2: // at or above the cap
 			if rapid.Bool().Draw(rt, "rbig") {
-				o.W = rapid.SampledFrom([]int{32768, 65535, 65536, 65537, 1<<31 - 1, 1 << 31, 1<<32 + 1, 1 << 53, math.MaxInt64 - 1, math.MaxInt64}).Draw(rt, "w")
+				o.W = rapid.SampledFrom(c13Ints(32768, 65535, 65536, 65537, 1<<31-1, 1<<31, 1<<32+1, 1<<53, math.MaxInt-1, math.MaxInt)).Draw(rt, "w")
 			} else {
 				o.W = rapid.IntRange(effR, 2*effR+5).Draw(rt, "w")
 			}
@@ -1568,7 +1581,7 @@ func c13Gen(rt *rapid.T) c13Case {
 	}
 	c.Style = rapid.SampledFrom([]int{0, 0, 0, 1, 1, 1, 2, 2, 2, 3, 4, 4, 5}).Draw(rt, "style")
 	if rapid.IntRange(0, 19).Draw(rt, "negr") == 0 {
-		c.R, c.Neg = 50, rapid.SampledFrom([]int{-1, -100, math.MinInt64, math.MinInt32}).Draw(rt, "neg")
+		c.R, c.Neg = 50, rapid.SampledFrom([]int{-1, -100, math.MinInt, math.MinInt32}).Draw(rt, "neg")
 	}
 	switch rapid.Uint64().Draw(rt, "hf") % 20 { // custom hash function (rapid favours small values: the special classes sit on the large residues)
 	case 15, 16:
@@ -1614,9 +1627,9 @@ func c13Gen(rt *rapid.T) c13Case {
 	if rapid.IntRange(0, 9).Draw(rt, "unspec") == 0 {
 		o := c13Op{N: rapid.IntRange(0, nn-1).Draw(rt, "un"), U: true}
 		if rapid.Bool().Draw(rt, "uk") {
-			o.K, o.W = "addw", rapid.SampledFrom([]int{-1, -100, math.MinInt64, 1 << 62, math.MaxInt64}).Draw(rt, "uw")
+			o.K, o.W = "addw", rapid.SampledFrom([]int{-1, -100, math.MinInt, math.MaxInt/2 + 1, math.MaxInt}).Draw(rt, "uw")
 		} else {
-			o.K, o.W = "addr", rapid.SampledFrom([]int{-1, math.MinInt32, math.MinInt64}).Draw(rt, "uw")
+			o.K, o.W = "addr", rapid.SampledFrom([]int{-1, math.MinInt32, math.MinInt}).Draw(rt, "uw")
 		}
 		c.Ops = append(c.Ops, o)
 	}
